@@ -324,6 +324,27 @@ def check_support(ctx, R="C05.support"):
     if len(names) < 4:
         raise AnalysisError("shape not recognised: OperatorDistribution.supportInterval bound names")
     ren = {v: k for k, v in names.items()}
+    # the names of the two results: the `return <lo>, <hi>` that closes the binary-operator branch
+    res = [
+        r
+        for r in lib.returns_of(f)
+        if isinstance(r.value, ast.Tuple) and len(r.value.elts) == 2 and all(isinstance(e, ast.Name) for e in r.value.elts)
+        and not {e.id for e in r.value.elts} & set(ren)
+    ]
+    if not res:
+        raise AnalysisError("shape not recognised: OperatorDistribution.supportInterval result names")
+    lo_name, hi_name = (e.id for e in res[0].value.elts)
+    for o in branches:
+        fixed = []
+        for s, asg in branches[o]:
+            a2 = dict(asg)
+            if lo_name in asg:
+                a2["l"] = asg[lo_name]
+            if hi_name in asg:
+                a2["r"] = asg[hi_name]
+            fixed.append((s, a2))
+        branches[o] = fixed
+    ren[lo_name], ren[hi_name] = "l", "r"
 
     def canon(e):
         return lib._Rename(ren).visit(ast.parse(unparse(e), mode="eval").body)
@@ -339,12 +360,14 @@ def check_support(ctx, R="C05.support"):
                     ctx.finding(R, s, f"support formula {op}", f"support of `{op}` is computed as [{unparse(asg['l'])}, {unparse(asg['r'])}], interval arithmetic requires [{wl}, {wr}]")
     for op in ("__mul__", "__rmul__"):
         for s, asg in branches.get(op, []):
-            if "prods" in asg and isinstance(asg["prods"], ast.Tuple):
+            pn = [k for k, v in asg.items() if isinstance(v, ast.Tuple) and len(v.elts) == 4]
+            if pn:
+                pn = pn[0]
                 nchk += 1
-                got = {tuple(sorted(lin(canon(e)).items())) for e in asg["prods"].elts}
+                got = {tuple(sorted(lin(canon(e)).items())) for e in asg[pn].elts}
                 want = {tuple(sorted(lin_src(x).items())) for x in ("l1 * l2", "l1 * r2", "r1 * l2", "r1 * r2")}
                 lo, hi = unparse(asg.get("l", ast.Constant(None))), unparse(asg.get("r", ast.Constant(None)))
-                if got == want and lo in ("min(*prods)", "min(prods)") and hi in ("max(*prods)", "max(prods)"):
+                if got == want and lo in (f"min(*{pn})", f"min({pn})") and hi in (f"max(*{pn})", f"max({pn})"):
                     ctx.ok(R, s, f"support of {op}: min/max of the four endpoint products")
                 else:
                     ctx.finding(R, s, f"support formula {op}", f"support of `{op}` is not [min, max] of the four endpoint products")
@@ -355,13 +378,13 @@ def check_support(ctx, R="C05.support"):
             if not inner:
                 continue
             nchk += 1
-            t = unparse(canon(inner[0].test))
-            a2 = {b.targets[0].id: unparse(canon(b.value)) for b in inner[0].body if isinstance(b, ast.Assign) and isinstance(b.targets[0], ast.Name)}
+            t = lib.ctext(canon(inner[0].test))
+            a2 = {ren.get(b.targets[0].id, b.targets[0].id): lib.ctext(canon(b.value)) for b in inner[0].body if isinstance(b, ast.Assign) and isinstance(b.targets[0], ast.Name)}
             nl, nr = num
             dl, dr = den
             want_l = f"{nl} / {dr} if {nl} >= 0 else {nl} / {dl}"
             want_r = f"{nr} / {dl} if {nr} >= 0 else {nr} / {dr}"
-            if t == f"{dl} > 0" and a2.get("l") == want_l and a2.get("r") == want_r:
+            if t == lib.ctext_of(f"{dl} > 0") and a2.get("l") == lib.ctext_of(want_l) and a2.get("r") == lib.ctext_of(want_r):
                 ctx.ok(R, s, f"support of {op}: sign-guarded quotient for a positive divisor")
             else:
                 ctx.finding(R, s, f"support formula {op}", f"support of `{op}`: expected `if {dl} > 0: l = {want_l}; r = {want_r}`, found test `{t}` l=`{a2.get('l')}` r=`{a2.get('r')}`")
@@ -419,7 +442,13 @@ def check_support(ctx, R="C05.support"):
         else:
             ctx.finding(R, fn, f"{q} union", f"{q} is not `{want}`")
     fn = model.func(DI, "unionOfSupports")
-    if "supmin(*mins)" in unparse(fn) and "supmax(*maxes)" in unparse(fn):
+    zipped = [n for n in walk_local(fn) if isinstance(n, ast.Assign) and isinstance(n.targets[0], ast.Tuple) and len(n.targets[0].elts) == 2 and unparse(n.value).startswith("zip(*")]
+    rets = [r for r in lib.returns_of(fn) if r.value is not None]
+    ok_u = False
+    if zipped and len(rets) == 1 and all(isinstance(e, ast.Name) for e in zipped[0].targets[0].elts):
+        a, b = (e.id for e in zipped[0].targets[0].elts)
+        ok_u = unparse(rets[0].value) == f"(supmin(*{a}), supmax(*{b}))"
+    if ok_u:
         ctx.ok(R, fn, "unionOfSupports = (None-aware min of lower bounds, None-aware max of upper bounds)")
     else:
         ctx.finding(R, fn, "unionOfSupports", "unionOfSupports is not (supmin(*mins), supmax(*maxes))")
